@@ -6,7 +6,7 @@
    time, fmt and Unicode tables, which are not modelled.
    The hypotheses [length < two63] say that a length fits Go's int, which holds of every Go
    slice and string; without them the filter's 64-bit index arithmetic would wrap. *)
-From PV Require Import Model.Filters Spec.SpecFilters.
+From PV Require Import Model.Filters Spec.SpecFilters gen.Scalar.
 From PV Require Import Tie.C18.
 Open Scope N_scope.
 
@@ -95,3 +95,12 @@ Theorem C18_filters_never_panic :
 Proof. exact tie_filters_never_panic. Qed.
 Print Assumptions C18_filters_never_panic.
 
+
+(* ---- the index arithmetic is the code's ----
+   [go_slice_bounds] (gen/Scalar.v) is filterSlice's from/to bookkeeping, translated from /repo
+   statement by statement on every run; [sl_from]/[sl_to] (Proofs/FilterProofs.v) are what the
+   model's slice computes with and what the theorems above are proved about. *)
+Theorem C18_slice_arithmetic_is_the_code : forall n f v b,
+  fst (go_slice_bounds n f v b) = (sl_from n f, sl_to n (sl_from n f) (if b then n else v)).
+Proof. exact e2_slice_bounds. Qed.
+Print Assumptions C18_slice_arithmetic_is_the_code.
